@@ -9,6 +9,8 @@ RULE = ('cases = (function, record, dt, fractions or threshold, se in {T,F}); re
         'plateau/sparse/zero-prefixed; fractions dyadic (k/16) and the default 0.05/0.95; thresholds placed exactly ON sample magnitudes (incl. the peak), between them, 0 and above the peak; '
         'custom cumulative measures: calc_cav, calc_isv and a step function, and a signed measure that is NOT monotone (net impulse cumsum(values)*dt of records whose impulse rises, dips below the lower fraction and rises again / '
         'overshoots the final value / oscillates through the band / ends at or below zero: start and end are the first and last in-band samples whatever the shape); a case is skipped as fragile (counted) when a float threshold product decides a comparison differently from exact arithmetic; '
+        'calc_sig_dur also called with im and se POSITIONALLY in the documented order (asig, start, end, im, se), result kind checked (pair of numbers / one number); '
+        'calc_sig_dur_vals also on ordinary float records (8..160 samples, not dyadic, with and without a zero tail) with the upper fraction exactly 1.0, the model summing the squares exactly; compared where the binary64 running sum and the exact one decide every comparison alike (else fragile); '
         'non-trivial = some sample qualifies, or the empty-result branch is exercised on a non-zero record')
 TRUSTED = [
     'Coq 8.16.1 kernel + vm_compute',
@@ -118,6 +120,13 @@ def run(rep, rng, tier):
         if isinstance(res_dur, ImplError) and 'IndexError' not in str(res_dur):
             rep.violation(site, {'function': site, 'args': args, 'impl_error': str(res_dur)})
             return
+        # kind of the result: se=True gives a (start, end) pair of numbers, se=False one number
+        if has and not (isinstance(res_se, tuple) and len(res_se) == 2 and all(isinstance(v, (int, float, np.number)) for v in res_se)):
+            rep.violation(site, {'function': site, 'args': args, 'impl': 'se=True did not return a (start, end) pair of numbers', 'observed': repr(res_se)})
+            return
+        if not isinstance(res_dur, (ImplError, int, float, np.number)):
+            rep.violation(site, {'function': site, 'args': args, 'impl': 'se=False did not return one number (the duration)', 'observed': repr(res_dur)})
+            return
         s, e = (res_se if has else (0.0, 0.0))
         dur = 0.0 if isinstance(res_dur, ImplError) else res_dur
         if isinstance(res_dur, ImplError) != isinstance(res_se, ImplError):
@@ -177,6 +186,14 @@ def run(rep, rng, tier):
             r_d = core.guarded_pure(eqsig.im.calc_sig_dur, asig, start=lo, end=hi, im=arg, se=False)
             emit(0, 'calc_sig_dur[%s]%s' % (name, hist), dt, lo, hi, 0, cumv, r_se, r_d, tol,
                  {'values': list(a), 'dt': dt, 'start': lo, 'end': hi, 'im': name}, bool(np.any(a != 0)))
+            if k % 3 == 1:
+                # the same query with the measure and se handed over POSITIONALLY in the documented order (asig, start, end, im, se)
+                r_se = core.guarded_pure(eqsig.im.calc_sig_dur, asig, lo, hi, arg, True)
+                r_d = core.guarded_pure(eqsig.im.calc_sig_dur, asig, lo, hi, arg) if k % 2 else core.guarded_pure(eqsig.im.calc_sig_dur, asig, lo, hi, arg, False)
+                emit(0, 'calc_sig_dur[%s][im, se positional]' % name, dt, lo, hi, 0, cumv, r_se, r_d, tol,
+                     {'values': list(a), 'dt': dt, 'start': lo, 'end': hi, 'im': name,
+                      'call': 'calc_sig_dur(asig, start, end, im, True) and calc_sig_dur(asig, start, end, im%s)' % ('' if k % 2 else ', False')},
+                     bool(np.any(a != 0)))
         else:
             fragile += 1
         # --- bracketed duration: thresholds on, between, below and above the sample magnitudes
@@ -217,6 +234,44 @@ def run(rep, rng, tier):
              {'values': list(a), 'dt': dt, 'start': lo, 'end': hi, 'im': 'net_impulse = cumsum(values)*dt', 'shape': shape,
               'measure_values': list(cumv)}, bool(np.any(a != 0)) and (inband or shape == 'nonpositive'))
     rep.extra['net_impulse_shapes'] = shapes_seen
+    # --- array variant on ordinary float records (>= 8 samples, not dyadic) with the upper fraction exactly 1.0: the end is the last
+    # sample whose running sum of squares is strictly below the FINAL VALUE OF THAT RUNNING SUM (with a quiet tail: the sample
+    # before the last non-zero one).  Compared where the binary64 running sum np.cumsum(motion**2) and the exact one take every
+    # comparison the same way (else fragile); half of the records are those whose pairwise total np.sum(motion**2) differs from
+    # the last element of the running sum (the two are different roundings of the same real number).
+    NF = 16 if tier == 'quick' else 160
+    n_float, n_sumdiff = 0, 0
+    for k in range(NF):
+        for attempt in range(40):
+            n = rng.randint(8, 120)
+            a, style = gens.float_record(rng, n)
+            a = a * 10.0 ** rng.choice([0, 0, -2, 2])
+            if k % 2 == 0:
+                a = np.concatenate([a, np.zeros(rng.randint(1, 40))])         # quiet tail
+            if k % 4 == 1:
+                a = np.concatenate([np.zeros(rng.randint(1, 5)), a])
+            if k % 2 == 1 or float(np.sum(a ** 2)) != float(np.cumsum(a ** 2)[-1]):
+                break
+        lo = rng.choice([0.0, 0.05, 0.25])
+        hi = 1.0
+        dt = rng.choice([0.01, 0.005, 0.02, 0.125])
+        cumf = np.cumsum(a ** 2)
+        cumx, acc = [], Fraction(0)
+        for v in a:
+            acc += frac(v) ** 2
+            cumx.append(acc)
+        flo, fhi = frac(lo), frac(hi)
+        if any((xf > lo * cumf[-1]) != (xx > flo * cumx[-1]) or (xf < hi * cumf[-1]) != (xx < fhi * cumx[-1]) for xf, xx in zip(cumf, cumx)):
+            fragile += 1
+            continue
+        r_se = core.guarded_pure(eqsig.im.calc_sig_dur_vals, a.copy(), dt, start=lo, end=hi, se=True)
+        r_d = core.guarded_pure(eqsig.im.calc_sig_dur_vals, a.copy(), dt, start=lo, end=hi, se=False)
+        n_float += 1
+        n_sumdiff += int(float(np.sum(a ** 2)) != float(cumf[-1]))
+        emit(2, 'calc_sig_dur_vals[float record, end=1.0]', dt, lo, hi, 0, a, r_se, r_d, 1e-12 * len(a) * dt,
+             {'motion': list(map(float, a)), 'dt': dt, 'start': lo, 'end': hi}, True)
+    rep.extra['float_end1_cases'] = n_float
+    rep.extra['float_end1_cases_pairwise_total_differs'] = n_sumdiff
     rep.extra['fragile_skipped'] = fragile
     rep.correspond('model.K_C10', 'check_case', cases, describe='model_out %s')
 
